@@ -504,6 +504,48 @@ def add_conn_choice(rng, spec, cid='X0', p_group=0.2, p_cond=0.5, max_side=3):
     return spec
 
 
+def add_index_constraint(rng, spec, kind, hierarchical=True):
+    """A PERMUTATION / UNORDERED / UNORDERED_NOREPL constraint over two or three selection choices (one of them
+    permanently active; choice order = order of the choice ids, as the library sorts them). UNORDERED kinds need equal
+    option counts: the option lists are cut to the shortest."""
+    assert kind in ('permutation', 'unordered', 'unordered_norepl')
+    spec = copy.deepcopy(spec)
+    from simkit.ref_sem import Spec
+    so = Spec(spec)
+    always = set()
+    todo = list(spec['start'])
+    while todo:
+        x = todo.pop()
+        if x in always:
+            continue
+        always.add(x)
+        todo.extend(so.derive.get(x, []))
+        for cid in so.sel_by_origin.get(x, []):
+            if len(so.sel[cid][1]) == 1:
+                todo.extend(so.sel[cid][1])
+    taken = {c for _, cids in spec.get('constraints', []) for c in cids}
+    permanent = [c for c in spec['sel'] if c[1] in always and len(c[2]) >= 2 and c[0] not in taken]
+    if not permanent:
+        return spec
+    anchor = rng.choice(permanent)
+    others = [c for c in spec['sel'] if c is not anchor and len(c[2]) >= 2 and c[0] not in taken
+              and (hierarchical or c[1] in always)]
+    if not others:
+        return spec
+    mates = rng.sample(others, 1 if len(others) == 1 or rng.random() < 0.7 else 2)
+    group = [anchor] + mates
+    if kind != 'permutation':
+        n = min(len(c[2]) for c in group)
+        for c in group:
+            c[2][:] = c[2][:n]
+        spec = drop_unreachable(spec)
+    ids = {c[0] for c in spec['sel']}
+    grp = sorted(c[0] for c in group)
+    if all(i in ids for i in grp) and all(len(c[2]) >= 2 for c in spec['sel'] if c[0] in grp):
+        spec.setdefault('constraints', []).append([kind, grp])
+    return spec
+
+
 def add_linked_constraint(rng, spec, hierarchical=True):
     """A LINKED constraint between two (rarely three) selection choices with equal option counts; with
     `hierarchical` the choices may sit on different levels, otherwise only choices on start nodes are taken."""
